@@ -62,6 +62,11 @@ def generate(tier, rng):
                     dict(kind="foldnorm", mean=dict(dims=["t"], values=[3 + 2.5 * i for i in range(n)]), std=dict(dims=["t"], values=[2 + ((2 * i) % 3) for i in range(n)])),
                     dict(kind="lognormal", mean=dict(dims=["t"], values=[12 - (i % 4) * 2 for i in range(n)]), std=dict(dims=["t"], values=[2 + (i % 2) * 3 for i in range(n)])),
                     dict(kind="weibull", shape=dict(dims=["t"], values=[1.2 + 0.4 * (i % 4) for i in range(n)]), scale=dict(dims=["t"], values=[14 - 1.5 * (i % 5) for i in range(n)]))]
+            # whole-number parameters held in integer arrays (mean / std and scale / shape not whole-number ratios)
+            real += [dict(kind="foldnorm", mean=dict(dims=["t"], values=[9 + i for i in range(n)], dtype="int"), std=4),
+                     dict(kind="normal", mean=dict(dims=["t"], values=[7 + 2 * i for i in range(n)], dtype="int"), std=dict(dims=["t"], values=[3 + (i % 2) for i in range(n)], dtype="int")),
+                     dict(kind="lognormal", mean=dict(dims=["t"], values=[11 - (i % 3) for i in range(n)], dtype="int"), std=dict(dims=["t"], values=[4] * n, dtype="int")),
+                     dict(kind="weibull", shape=dict(dims=["t"], values=[2 + (i % 2) for i in range(n)], dtype="int"), scale=dict(dims=["t"], values=[9 + i for i in range(n)], dtype="int"))]
             if extra:
                 l = extra[-1]
                 m = len(sd.EXTRA[l])
